@@ -1,0 +1,8 @@
+//go:build verif
+
+package log
+
+// Exports for the verification harness in /verif (build tag "verif" only).
+
+// VerifRoot exposes the directory a FileIO writes its day files under.
+func (f *FileIO) VerifRoot() string { return f.logger.root }
